@@ -2,21 +2,24 @@
 WHATWG definitions: "has an element in scope", "generate implied end tags", "pop until", closing a p element, "reset the
 insertion mode appropriately", "reconstruct the active formatting elements".  Serves C02 (partially) and the no-panic part of
 C04 for these functions (the preconditions under which pop / current_node / the template-mode lookup cannot panic)."""
-from unitgen import Raw, Prelude, Item, Rewrite, Atoms
+from unitgen import Raw, Prelude, Item, Rewrite, Atoms, Generated
+from u_fmt import check_iterator
 
 NAME = 'u_stack'
 PROPERTIES = ['C02', 'C04']
 CONTRACTS = 'u_stack.contracts'
+SHARED_CONTRACTS = ['u_aaa.contracts']
 RLIMIT = 30
 H = 'html5ever/src/tree_builder/mod.rs'
 TY = 'html5ever/src/tree_builder/types.rs'
+IF = 'html5ever/src/tokenizer/interface.rs'
 
 MUTATING = ('push', 'pop', 'remove_from_stack', 'generate_implied_end_tags', 'generate_implied_end_except', 'pop_until_current',
             'pop_until', 'pop_until_named', 'expect_to_close', 'close_p_element', 'close_p_element_in_button_scope',
-            'reconstruct_active_formatting_elements', 'process_end_tag_in_body')
+            'reconstruct_active_formatting_elements', 'process_end_tag_in_body', 'adoption_agency', 'insert_at', 'insert_appropriately')
 READING = ('html_elem_named', 'elem_in', 'current_node', 'current_node_in', 'current_node_named', 'in_scope', 'in_scope_named',
            'in_html_elem_named', 'reset_insertion_mode', 'is_marker_or_open', 'html_elem', 'body_elem',
-           'appropriate_place_for_insertion')
+           'appropriate_place_for_insertion', 'position_in_active_formatting')
 
 REWRITES = [
     Rewrite('R2-generics', r'pub struct TreeBuilder<Handle, Sink>', 'pub struct TreeBuilder'),
@@ -24,6 +27,8 @@ REWRITES = [
     Rewrite('R2-generics', r'FormatEntry<Handle>', 'FormatEntry'),
     Rewrite('R2-generics', r'pub\(crate\) enum InsertionPoint<Handle>', 'pub enum InsertionPoint'),
     Rewrite('R2-generics', r'InsertionPoint<Handle>', 'InsertionPoint'),
+    Rewrite('R2-generics', r'enum Bookmark<Handle>', 'pub enum Bookmark'),
+    Rewrite('R2-generics', r'NodeOrText<Handle>', 'NodeOrText'),
     Rewrite('R-vis', r'(?m)^(\s+)(\w+): ', r'\1pub \2: ', only=('TreeBuilder',)),
     Rewrite('R-vis', r'\bpub\(crate\)\s+', 'pub '),
     # R1: interior mutability made explicit - only the functions that write through a RefCell take `&mut self`
@@ -50,6 +55,19 @@ REWRITES = [
     Rewrite('R36-peekloop', r'let mut iter = open_elems\.iter\(\)\.rev\(\)\.peekable\(\);\s*while let Some\(elem\) = iter\.next\(\) \{',
             'let mut __i = open_elems.len(); while __i > 0 { __i -= 1; let elem = &open_elems[__i];', min_count=1),
     Rewrite('R36-peekloop', r'\(\*iter\.peek\(\)\.unwrap\(\)\)\.clone\(\)', 'open_elems[__i - 1].clone()', min_count=1),
+    # ... the adoption agency algorithm's look-ups
+    Rewrite('R36-fmtentry', r'self\s*\.active_formatting_end_to_marker\(\)\s*\.iter\(\)\s*\.find\(\|&\(_, _, tag\)\| tag\.name == subject\)\s*\.map\(\|\(i, h, t\)\| \(i, h\.clone\(\), t\.clone\(\)\)\)',
+            'fmt_entry_named(&self.active_formatting.borrow(), &subject)', min_count=1),
+    Rewrite('R37-findfrom', r'self\s*\.open_elems\s*\.borrow\(\)\s*\.iter\(\)\s*\.enumerate\(\)\s*\.skip\(fmt_elem_stack_index\)\s*\.find\(\|&\(_, open_element\)\| self\.elem_in\(open_element, special_tag\)\)\s*\.map\(\|\(i, h\)\| \(i, h\.clone\(\)\)\)',
+            'vec_find_from(&self.open_elems.borrow(), fmt_elem_stack_index, |open_element| self.elem_in(open_element, special_tag))', min_count=1),
+    Rewrite('R37-position', r'self\s*\.open_elems\s*\.borrow\(\)\s*\.iter\(\)\s*\.position\(', 'vec_position(&self.open_elems.borrow(), ', min_count=1),
+    Rewrite('R37-position', r'self\.active_formatting\s*\.borrow\(\)\s*\.iter\(\)\s*\.position\(', 'vec_position(&self.active_formatting.borrow(), ', min_count=1),
+    # R13: Option::map with a closure that mutates `self` is written as a match (one site)
+    Rewrite('R13-mapmut', r'self\.position_in_active_formatting\(&node\)\s*\.map\(\|position\| self\.active_formatting\.borrow_mut\(\)\.remove\(position\)\);',
+            'match self.position_in_active_formatting(&node) { Some(position) => { self.active_formatting.borrow_mut().remove(position); }, None => {} }', min_count=1),
+    Rewrite('S-iterlabel', r'for _ in 0\.\.(\d+) \{', r'for _i in 0..\1 {', min_count=1),
+    Rewrite('R32-vecmacro', r'\bvec!\[\]', 'Vec::new()'),
+    Rewrite('R1-receiver', r'create_element_with_flags\(\s*&self\.sink,', 'create_element_with_flags(&mut self.sink,', min_count=2),
     # R13: Option::unwrap_or_else with a closure written out
     Rewrite('R13-unwrap_or_else', r'override_target\.unwrap_or_else\(\|\| self\.current_node\(\)\.clone\(\)\)',
             'match override_target { Some(__t) => __t, None => self.current_node().clone() }', min_count=1),
@@ -64,7 +82,7 @@ REWRITES = [
     #      the guard is pure): Verus does not accept both on one arm
     Rewrite('R40-orguard', r'local_name!\("td"\) \| local_name!\("th"\) if !last => (\{\s*return InsertionMode::InCell;\s*\}),',
             r'local_name!("td") if !last => { return InsertionMode::InCell; }, local_name!("th") if !last => \1,'),
-    Rewrite('R6-clone', r'tag\.attrs\.clone\(\)', 'attrs_clone(&tag.attrs)'),
+    Rewrite('R6-clone', r'\b(\w+)\.attrs\.clone\(\)', r'attrs_clone(&\1.attrs)'),
     # the local tag set `implied` = cursory_implied_end minus "p" is a model function (stack.spec.rs); declare_tag_set!
     # expansions are checked by U-tagsets
     Rewrite('R39-localset', r'declare_tag_set!\(implied = \[cursory_implied_end\] - "p"\);', '', min_count=1),
@@ -88,18 +106,27 @@ PARTS = [
     Raw('use vstd::prelude::*;\nverus! {'),
     Prelude('cells.prelude.rs'),
     Prelude('stack.prelude.rs'),
+    Item(IF, 'enum', 'TagKind', attrs=DERIVE),
+    Raw('pub use TagKind::{EndTag, StartTag};'),
+    Item(IF, 'struct', 'Tag'),
     Item(TY, 'enum', 'InsertionMode', attrs=DERIVE),
     Item(TY, 'enum', 'SplitStatus', attrs=DERIVE),
     Item(TY, 'enum', 'FormatEntry'),
     Item(TY, 'enum', 'InsertionPoint'),
+    Item(H, 'enum', 'Bookmark'),
     Item(H, 'struct', 'TreeBuilder'),
     Prelude('stack.spec.rs'),
+    Prelude('aaa.spec.rs'),
+    Generated(check_iterator, label='R36'),
 ] + [tb(n) for n in ('html_elem_named', 'elem_in', 'current_node', 'current_node_in', 'current_node_named', 'in_scope',
                      'in_scope_named', 'in_html_elem_named', 'push', 'pop', 'generate_implied_end_tags',
                      'generate_implied_end_except', 'pop_until', 'pop_until_named', 'pop_until_current', 'expect_to_close',
                      'close_p_element', 'close_p_element_in_button_scope', 'reset_insertion_mode', 'is_marker_or_open',
                      'remove_from_stack', 'reconstruct_active_formatting_elements', 'html_elem', 'body_elem',
-                     'process_end_tag_in_body', 'appropriate_place_for_insertion')] + [
+                     'process_end_tag_in_body', 'appropriate_place_for_insertion', 'position_in_active_formatting', 'insert_at',
+                     'insert_appropriately')] + [
+    # proved in unit u_aaa (same generated file, modes exchanged)
+    tb('adoption_agency', mode='assume'),
     Raw('} // verus!\nfn main() {}'),
 ]
 DROPS = ['Handle / Sink type parameters (model types: element names are an uninterpreted function of the handle, same_node is handle identity)',
